@@ -80,7 +80,7 @@ def search_sink_tag():
 
 def search_appliers():
     wit, cases = [], 0
-    for unit_name, line, opr in itertools.product((None, 'a.py', 'b.py'), (None, 4, 9), ('record_write', 'field_write', 'call_stmt')):
+    for unit_name, line, opr in itertools.product((None, 'a.py', 'b.py', '.py', 'py', 'p/a.py'), (None, 4, 9), ('record_write', 'field_write', 'call_stmt')):     # a rule names a FILE: a name that is only a suffix of the unit's base name (or carries a directory) is another file
         cases += 1
         rule = Rule(operation=opr, name='record_write' if opr != 'call_stmt' else 'sink', key='k', unit_name=unit_name, line_num=line, unit_path=None)
         for fn, op in (('apply_record_write_sink_rules', 'record_write'), ('apply_field_write_sink_rules', 'field_write')):
